@@ -114,7 +114,14 @@ func run(c *core.Ctx) {
 		worlds[e] = w
 		// pre-flight: the unbounded baseline must be accepted, otherwise no
 		// acceptance / rejection below can be attributed to the interval.
-		o := w.Run(w.Spec, w.Slot)
+		pre := w.Spec
+		if e == lg.Shelley {
+			// ttl is mandatory in Shelley: the baseline carries one far in the future
+			pre = w.Spec.Clone()
+			far := ^uint64(0)
+			pre.TTL = &far
+		}
+		o := w.Run(pre, w.Slot)
 		if !o.Accepted {
 			forceInconclusive(c, fmt.Sprintf("%s: unbounded baseline transaction not accepted (decode=%v verify=%v): cannot judge", e, o.DecodeErr, o.VerifyErr))
 			return
